@@ -115,6 +115,7 @@ def run_native(unit, adapter, inputs):
     src = os.path.join(ROOT, 'replay', 'adapters', adapter)
     exe = os.path.join(work, os.path.splitext(adapter)[0])
     extra = []
+    libs = []
     nosan = False
     for ln in open(src):
         m = re.match(r'//\s*SOURCES:\s*(.*)', ln)
@@ -125,8 +126,11 @@ def run_native(unit, adapter, inputs):
             extra += m.group(1).split()
         if re.match(r'//\s*SANITIZE:\s*none', ln):
             nosan = True
+        m = re.match(r'//\s*LIBS:\s*(.*)', ln)
+        if m:
+            libs += m.group(1).split(); nosan = True
     cmd = ['clang++-14', '-std=c++14', '-O1', '-g', '-fsanitize=address,undefined', '-fno-sanitize-recover=undefined',
-           '-I/repo/src', '-I', os.path.join(ROOT, 'replay'), src] + extra + ['-o', exe]
+           '-I/repo/src', '-I', os.path.join(ROOT, 'replay'), src] + extra + libs + ['-o', exe]
     if nosan:
         cmd = [c for c in cmd if not c.startswith('-fsanitize') and not c.startswith('-fno-sanitize')]
     if exe not in _lib_built:
